@@ -203,5 +203,66 @@ def _retry_contract(kind):
     return FnContract(Q, [Case("any-number-of-components", make, clauses, raises=(), props=["C06", "C07", "C08"])])
 
 
+
+def model_errors_contract():
+    """_process_model_errors: one returned error per failed model (in order), and every root of every failed model is
+    handed to _propogate_removal together with that model's error (generic model x generic root)."""
+    Q = f"{P}:_process_model_errors"
+
+    def make(I):
+        import openapi_python_client.parser.properties as props
+        from openapi_python_client.parser.errors import PropertyError
+        Z = I.Z
+        calls = []
+        I.contracts[f"{P}:_propogate_removal"] = lambda I2, a, k: calls.append((k["root"], k["error"], k["schemas"]))
+        base = z3.Const("model_errors", z3.SeqSort(Z.JV))
+        roots_of = z3.Function("roots_of_model", Z.JV, z3.SeqSort(Z.JV))
+        made = {}
+        elems = []
+
+        def elem(v):
+            key = v.t.get_id()
+            if key not in made:
+                elems.append(v.t)
+                err = SObj(PropertyError, {"detail": SStr(I.fresh("detail", z3.StringSort())) if I.branch_free() else None,
+                                           "header": "", "data": None, "level": None})
+                err.tag = v.t
+                model = SOpaque("failed model", cls=object, attrs={"roots": SSeq(roots_of(v.t), None, [])})
+                made[key] = STuple([model, err])
+            return made[key]
+        seq = SSeq(base, None, [elem])
+        schemas = SOpaque("schemas")
+        return SFunc("pyfunc", props._process_model_errors), [seq], {"schemas": schemas}, {"calls": calls, "base": base, "schemas": schemas,
+                                                                                          "roots_of": roots_of, "elems": elems}
+
+    def one_error_each(ctx):
+        v = ctx.value
+        return isinstance(v, SSeq) and z3.eq(v.base, ctx.inputs["base"]) and len(v.maps) == 2
+
+    def propagated_clause(ctx):
+        """the generic execution of the two loops (generic failed model, generic root of it) makes exactly one call:
+        root = that root, error = that model's error, schemas = the argument; no call only if a loop had nothing to visit"""
+        I = ctx.I
+        calls = ctx.inputs["calls"]
+        if len(calls) > 1:
+            return False
+        if not calls:
+            if I.must(z3.Length(ctx.inputs["base"]) == 0):
+                return True
+            return any(I.must(z3.Length(ctx.inputs["roots_of"](t)) == 0) for t in ctx.inputs["elems"])
+        root, err, sch = calls[0]
+        if sch is not ctx.inputs["schemas"] or not isinstance(err, SObj) or getattr(err, "tag", None) is None or not isinstance(root, SV):
+            return False
+        # the root is an element of the root set of the model the error belongs to
+        return z3.Contains(ctx.inputs["roots_of"](err.tag), z3.Unit(root.t))
+
+    clauses = [Clause("one-error-per-failed-model", one_error_each,
+                      statement="the result is the element-wise image of model_errors (one error per failed model, in order)"),
+               Clause("every-root-propagated", propagated_clause,
+                      statement="for every failed model and every root of it, _propogate_removal is called with that root, that "
+                                "model's error and the schemas argument")]
+    return FnContract(Q, [Case("any-number-of-failed-models", make, clauses, raises=(), props=["C06", "C07", "C08"])])
+
+
 def all_contracts():
-    return [_retry_contract("schemas"), _retry_contract("parameters"), _retry_contract("models")]
+    return [_retry_contract("schemas"), _retry_contract("parameters"), _retry_contract("models"), model_errors_contract()]
